@@ -175,9 +175,11 @@ func (s *sharer) tree(n dom.Node) any {
 //	4 builder   AddContainer / AddList / Set / Append (padding slots are the shared nil leaf)
 //	5 dag       like 1, but structurally equal subtrees are ONE object (shared between all the
 //	            documents of the case, too)
-const heapBuildModes = 6
+//	6 history   like 3, then every container gets a member added and removed again: all children
+//	            maps are allocated, the empty containers' too (once-written, emptied containers)
+const heapBuildModes = 7
 
-var heapBuildNames = []string{"frommap", "wire", "wire-nil", "wire-mix", "builder", "dag"}
+var heapBuildNames = []string{"frommap", "wire", "wire-nil", "wire-mix", "builder", "dag", "history"}
 
 func heapBuild(w W, mode int, memo map[string]dom.Node) dom.Node {
 	switch mode {
@@ -195,8 +197,19 @@ func heapBuild(w W, mode int, memo map[string]dom.Node) dom.Node {
 		return wireNodeM(w, 2, false)
 	case 4:
 		return heapBuildAPI(w)
-	default:
+	case 5:
 		return heapBuildDag(w, memo)
+	default:
+		n := wireNodeM(w, 2, false)
+		var mut []dom.Node
+		mutableNodes(n, map[uintptr]bool{}, &mut)
+		for _, m := range mut {
+			if cb, ok := m.(dom.ContainerBuilder); ok {
+				cb.AddValue("tmp_", dom.LeafNode(0))
+				cb.Remove("tmp_")
+			}
+		}
+		return n
 	}
 }
 
@@ -516,7 +529,45 @@ func heapCloneEval(c *Ctx, raw []byte) {
 	if !c.Direct("no-panic", out == "ok", txt) {
 		return
 	}
-	c.Corr("heapClone", impl, c.Model("heapClone", args))
+	heapCorr(c, "heapClone", impl, c.Model("heapClone", args))
+}
+
+// heapCorr compares the observation with the model's in three parts (separate obligations, so
+// that the evidence says which part differs): the sharing map, the abstractions (result, inputs
+// before / after, "no old cell written"), and the abstractions after the in-place probe writes.
+func heapCorr(c *Ctx, op string, impl map[string]any, model any) {
+	mm, _ := model.(map[string]any)
+	part := func(keys ...string) (any, any) {
+		a, b := map[string]any{}, map[string]any{}
+		for _, k := range keys {
+			a[k] = impl[k]
+			if mm != nil {
+				b[k] = mm[k]
+			}
+		}
+		if mm == nil || mm["model_error"] != nil {
+			return a, model
+		}
+		return a, b
+	}
+	ok := true
+	a, b := part("ok", "share")
+	ok = c.Corr(op+".share", a, b) && ok
+	a, b = part("ok", "abs", "inputs", "inputsBefore", "prefix")
+	ok = c.Corr(op+".abs", a, b) && ok
+	var wk []string
+	for k := range impl {
+		if len(k) > 5 && k[:5] == "after" {
+			wk = append(wk, k)
+		}
+	}
+	a, b = part(wk...)
+	ok = c.Corr(op+".writes", a, b) && ok
+	if ok {
+		c.Dist(op + ":model-agrees")
+	} else {
+		c.Dist(op + ":model-differs")
+	}
 }
 
 func kindOf(n dom.Node) string {
@@ -729,7 +780,7 @@ func heapMergeEval(c *Ctx, raw []byte) {
 	if overlay {
 		op = "heapMergeAll"
 	}
-	c.Corr(op, impl, c.Model(op, args))
+	heapCorr(c, op, impl, c.Model(op, args))
 }
 
 var _ = rand.Int
